@@ -237,6 +237,42 @@ theorem witness_F_C13_2 : ¬ C13_Reclaim_Statement {} := by
   intro h
   exact absurd (h witness_lostRst) (by decide)
 
+def witness_dataAfterClose : List Op :=
+    [.listen 1 0 srv, .connect 0 0 0 srv, .egress, .deliver 0, .egress, .deliver 1, .cpoll 0 0,
+    .egress, .deliver 2, .accept 0 1, .sdrop 1, .egress, .deliver 3, .write 0 [1, 2, 3, 4, 5, 6, 7, 8,
+    9, 10, 11, 12], .egress, .deliver 4, .deliver 5, .deliver 6, .egress, .deliver 7, .deliver 8,
+    .sdrop 0, .ldrop 0, .egress, .egress, .egress, .egress, .egress, .egress, .egress, .egress,
+    .egress, .egress, .egress, .egress, .egress, .egress, .egress, .egress, .egress, .egress, .egress,
+    .egress, .egress, .egress, .egress, .egress, .stat]
+
+def fixed_dataAfterClose : List Op :=
+    [.listen 1 0 srv, .connect 0 0 0 srv, .egress, .deliver 0, .egress, .deliver 1, .cpoll 0 0,
+    .egress, .deliver 2, .accept 0 1, .sdrop 1, .egress, .deliver 3, .write 0 [1, 2, 3, 4, 5, 6, 7, 8,
+    9, 10, 11, 12], .egress, .deliver 4, .deliver 5, .deliver 6, .egress, .deliver 7, .deliver 8,
+    .sdrop 0, .ldrop 0, .egress, .deliver 9, .egress, .egress, .egress, .egress, .egress, .egress,
+    .egress, .egress, .egress, .egress, .egress, .egress, .egress, .egress, .egress, .egress, .egress,
+    .egress, .egress, .egress, .egress, .egress, .egress, .stat]
+
+def cfgSmallWindow : Cfg := { recvCap := 4 }
+
+set_option maxRecDepth 100000 in
+/-- F-C13-3: no loss at all, `recv_buf_cap = 4`. The server application drops its (empty) stream;
+    the client's 12 bytes arrive afterwards and are queued on the closed socket, which nobody will
+    ever read: the window stays shut, the client's remaining bytes and its FIN can never leave, and
+    after the client drops too both sockets sit in `CLOSING` / `FIN_WAIT2` forever (nothing in
+    flight, so no retransmit timer; no orphan timeout). Real TCP answers data on a closed socket
+    with an RST. -/
+theorem witness_F_C13_3 : ¬ C13_Reclaim_Statement cfgSmallWindow := by
+  intro h
+  exact absurd (h witness_dataAfterClose) (by decide)
+
+set_option maxRecDepth 100000 in
+/-- With the repair (`fixRstAfterClose`) the same history reclaims everything. -/
+theorem fixed_F_C13_3 :
+    Spec.c13Check { cfgSmallWindow with fixRstAfterClose := true }
+      (Spec.modelHistory { cfgSmallWindow with fixRstAfterClose := true } 2 fixed_dataAfterClose) = none := by
+  decide
+
 /-- **What is proved of reclamation** (`C13_partial`): every path that finishes a connection ends
     in a state `reap_closed` collects, and collection is complete. (a) An acknowledged FIN moves
     `LastAck` / `Closing` to `Closed`, and a FIN received in `FinWait2` moves to `Closed`; (b) an
@@ -244,8 +280,8 @@ theorem witness_F_C13_2 : ¬ C13_Reclaim_Statement {} := by
     socket in `Closed` / reset state remains (`reap_closed_complete`), and `remove` clears all three
     indexes (`remove_clears`). Missing for the full statement: that every dropped socket *reaches*
     one of these states within the bound — false on the faithful model (F-C13-1: never-accepted
-    children are not `fd_closed`; F-C13-2: a lingering socket with nothing in flight waits forever
-    for a packet that was lost). -/
+    children are not `fd_closed`; F-C13-2 / F-C13-3: a lingering socket with nothing in flight waits
+    forever, for a lost RST or behind a window that a closed peer will never reopen). -/
 theorem C13_partial :
     (Tcb.stateOnFinAck .lastAck = .closed ∧ Tcb.stateOnFinAck .closing = .closed ∧
       Tcb.stateOnPeerFin .finWait2 = .closed) ∧
